@@ -34,6 +34,17 @@ package schemas
 //@   ensures [C11] result-or-error: (result1 == nil) != (result0 == nil)
 //@   ensures [C11] result-is-new: result1 == nil ==> fresh(result0)
 
+// With nested sub-schemas the same obligation FAILS on the real code, and rightly:
+// the first Merge copies the first branch's pointers (property sub-schemas,
+// *float64 bounds) into the result, the second Merge writes through them. Recorded
+// as known finding C11-allof-writes-into-branches (witness replayed end to end);
+// this scenario contract exists so that the finding is an obligation of its own.
+//@ func MergeTypes@nested
+//@   props C11 C10 C02
+//@   shape types = types(a:object+p;b:object+p)
+//@   assigns nothing
+//@   ensures [C11] result-is-new: result1 == nil ==> fresh(result0)
+
 // Only type lists are exempt from merging (their combination is decided by the
 // caller); every other field, nested sub-schemas included, is merged.
 //@ func (typeListTransformer).Transformer
